@@ -1,13 +1,14 @@
 (* Corollaries that make the tie of Model/Cli.v meaningful: what a successful run of the command
    line PRINTS is the rendering of an object the property theorems (C01, C07, C11, C14, C15, C18)
    speak about.  All proofs are unfoldings of [run_cli] followed by the existing theorems. *)
-From Coq Require Import List String ZArith Relations.
+From Coq Require Import Lia List String ZArith Relations.
 Import ListNotations.
 From Anthem Require Import Syntax.Fol Syntax.Asp Sem.Domain Sem.Sat Sem.AspRef Model.Natural.
 From Anthem Require Model.AspParse Model.AspPrint Model.FolLex Model.FolParse Model.FolPrint Model.FolClass
   Model.TauStar Model.Mu Model.CliMu Model.Gamma Model.Completion Model.Apply Model.SimplIntuit
   Model.SimplClassic Model.Strategy Model.StrategyCls Model.Tightness Model.Regularity.
 From Anthem Require Import Model.Cli.
+From Anthem Require Model.ClsTerm Proofs.FuelMono Proofs.ParserImage Proofs.ParserImagePipeline Proofs.FolImage.
 From Anthem Require Proofs.StrategyClsOk Proofs.SimplFull Proofs.TightnessOk Proofs.RegularOk.
 From Anthem Require Properties.C01 Properties.C07 Properties.C07full Properties.C11tight Properties.C11reg
   Properties.C14 Properties.C15 Properties.C15text Properties.C18.
@@ -46,7 +47,7 @@ Theorem cli_translate_tau_star_sound s out :
     (forall (FI : fint) (H T : pint), theory_hsat FI H T G <-> ref_sat H T P) /\
     (forall (FI : fint) (T Facts : pint), equilibrium FI T G Facts <-> stable T P Facts).
 Proof.
-  cbn [run_cli run_translate]. intros E.
+  unfold run_cli; cbn [run_cli_fuel run_translate]. intros E.
   apply program_bind_stdout in E. destruct E as (P & EP & E).
   destruct (TauStar.tau_star P) as [G|] eqn:EG; [|discriminate].
   exists P, G. split; [exact EP|]. split; [exact EG|]. split; [|split].
@@ -86,12 +87,12 @@ Proof.
   apply Forall2_app; [apply lift_refines|apply StrategyClsOk.CLASSIC_opt_refines].
 Qed.
 
-Lemma simplify_formula_sound portfolio strategy F G :
-  simplify_formula portfolio strategy F = Got G -> simplify_rel portfolio F G.
+Lemma simplify_formula_sound fuel portfolio strategy F G :
+  simplify_formula_fuel fuel portfolio strategy F = Got G -> simplify_rel portfolio F G.
 Proof.
-  unfold simplify_formula, simplify_rel, simplify_equiv. destruct portfolio.
+  unfold simplify_formula_fuel, simplify_rel, simplify_equiv. destruct portfolio.
   - (* classic *)
-    destruct (StrategyCls.run_strategy_opt classic_fuel portfolio_classic_opt (strategy_cls strategy) F)
+    destruct (StrategyCls.run_strategy_opt fuel portfolio_classic_opt (strategy_cls strategy) F)
       as [| |G'] eqn:E; try discriminate. intros [= <-].
     apply (StrategyClsOk.run_strategy_opt_refines _ _ _ _ _ _ portfolio_classic_opt_refines) in E.
     apply C07full.C07_full_classic_portfolio in E. exact E.
@@ -105,36 +106,36 @@ Proof.
     apply C07.C07_int_portfolio in E. destruct E as (Hh & _ & Hf). split; assumption.
 Qed.
 
-Lemma simplify_theory_sound portfolio strategy t t' :
-  simplify_theory portfolio strategy t = Got t' -> Forall2 (simplify_rel portfolio) t t'.
+Lemma simplify_theory_sound fuel portfolio strategy t t' :
+  simplify_theory_fuel fuel portfolio strategy t = Got t' -> Forall2 (simplify_rel portfolio) t t'.
 Proof.
-  revert t'. induction t as [|F t IH]; cbn [simplify_theory]; intros t'.
+  revert t'. induction t as [|F t IH]; cbn [simplify_theory_fuel]; intros t'.
   - intros [= <-]. constructor.
-  - destruct (simplify_formula portfolio strategy F) as [G|] eqn:EF; [|discriminate].
-    destruct (simplify_theory portfolio strategy t) as [Gs|] eqn:ET; [|discriminate].
-    intros [= <-]. constructor; [apply (simplify_formula_sound _ _ _ _ EF)|apply IH; reflexivity].
+  - destruct (simplify_formula_fuel fuel portfolio strategy F) as [G|] eqn:EF; [|discriminate].
+    destruct (simplify_theory_fuel fuel portfolio strategy t) as [Gs|] eqn:ET; [|discriminate].
+    intros [= <-]. constructor; [apply (simplify_formula_sound _ _ _ _ _ EF)|apply IH; reflexivity].
 Qed.
 
-Theorem cli_simplify_sound portfolio strategy s out :
-  run_cli (Simplify portfolio strategy) s = Stdout out ->
+Theorem cli_simplify_sound fuel portfolio strategy s out :
+  run_cli_fuel fuel (Simplify portfolio strategy) s = Stdout out ->
   exists t t' : theory,
     FolParse.parse_theory_str s = FolParse.PR_ok t /\
     out = FolPrint.show_theory t' /\
     Forall2 (simplify_rel portfolio) t t'.
 Proof.
-  cbn [run_cli]. unfold run_simplify. intros E.
+  cbn [run_cli_fuel]. unfold run_simplify_fuel. intros E.
   apply theory_bind_stdout in E. destruct E as (t & Et & E).
-  destruct (simplify_theory portfolio strategy t) as [t'|r] eqn:ES; cbn [bind] in E.
+  destruct (simplify_theory_fuel fuel portfolio strategy t) as [t'|r] eqn:ES; cbn [bind] in E.
   - exists t, t'. split; [exact Et|]. split.
     + apply print_theory_inj_stdout; exact E.
-    + apply simplify_theory_sound with (strategy := strategy); exact ES.
+    + apply simplify_theory_sound with (fuel := fuel) (strategy := strategy); exact ES.
   - exfalso.
-    assert (Hn : forall t r, simplify_theory portfolio strategy t = Stop r -> r = Panic \/ r = OutOfFuel).
-    { clear. induction t as [|F t IH]; cbn [simplify_theory]; intros r; [discriminate|].
-      destruct (simplify_formula portfolio strategy F) as [G|r0] eqn:EF.
-      - destruct (simplify_theory portfolio strategy t) as [Gs|r1]; [discriminate|].
+    assert (Hn : forall t r, simplify_theory_fuel fuel portfolio strategy t = Stop r -> r = Panic \/ r = OutOfFuel).
+    { clear. induction t as [|F t IH]; cbn [simplify_theory_fuel]; intros r; [discriminate|].
+      destruct (simplify_formula_fuel fuel portfolio strategy F) as [G|r0] eqn:EF.
+      - destruct (simplify_theory_fuel fuel portfolio strategy t) as [Gs|r1]; [discriminate|].
         intros [= <-]. apply IH; reflexivity.
-      - intros [= <-]. unfold simplify_formula in EF. destruct portfolio.
+      - intros [= <-]. unfold simplify_formula_fuel in EF. destruct portfolio.
         + destruct (StrategyCls.run_strategy_opt _ _ _ F); inversion EF; auto.
         + destruct (Strategy.run_strategy _ _ _ F); inversion EF; auto.
         + destruct (Strategy.run_strategy _ _ _ F); inversion EF; auto. }
@@ -143,45 +144,220 @@ Qed.
 
 (* the fuel given to the fixpoint loop is enough for the intuitionistic and ht portfolios: the
    model never gives up there (C18) *)
-Lemma simplify_formula_int_total strategy F : exists G, simplify_formula Intuitionistic strategy F = Got G.
+Lemma simplify_formula_int_total fuel strategy F : exists G, simplify_formula_fuel fuel Intuitionistic strategy F = Got G.
 Proof.
-  unfold simplify_formula.
+  unfold simplify_formula_fuel.
   destruct (C18.C18_simplify_int_total (strategy_int strategy) F) as [G E].
   unfold SimplIntuit.simplify_int in E.
   change (portfolio_total Intuitionistic) with SimplIntuit.portfolio_intuitionistic. rewrite E. eauto.
 Qed.
-Lemma simplify_formula_ht_total strategy F : exists G, simplify_formula Ht strategy F = Got G.
+Lemma simplify_formula_ht_total fuel strategy F : exists G, simplify_formula_fuel fuel Ht strategy F = Got G.
 Proof.
-  unfold simplify_formula.
+  unfold simplify_formula_fuel.
   destruct (C18.C18_simplify_ht_total (strategy_int strategy) F) as [G E].
   unfold SimplIntuit.simplify_ht in E.
   change (portfolio_total Ht) with SimplIntuit.portfolio_ht. rewrite E. eauto.
 Qed.
 
-Lemma simplify_theory_total portfolio strategy :
-  (forall F, exists G, simplify_formula portfolio strategy F = Got G) ->
-  forall t, exists t', simplify_theory portfolio strategy t = Got t'.
+Lemma simplify_theory_total fuel portfolio strategy :
+  (forall F, exists G, simplify_formula_fuel fuel portfolio strategy F = Got G) ->
+  forall t, exists t', simplify_theory_fuel fuel portfolio strategy t = Got t'.
 Proof.
-  intros Hf. induction t as [|F t [t' IH]]; cbn [simplify_theory]; [eauto|].
+  intros Hf. induction t as [|F t [t' IH]]; cbn [simplify_theory_fuel]; [eauto|].
   destruct (Hf F) as [G ->]. rewrite IH. eauto.
 Qed.
 
-Theorem cli_simplify_int_ht_terminates portfolio strategy s :
+Theorem cli_simplify_int_ht_terminates fuel portfolio strategy s :
   portfolio <> Classic ->
-  match run_cli (Simplify portfolio strategy) s with
+  match run_cli_fuel fuel (Simplify portfolio strategy) s with
   | Stdout _ => exists t, FolParse.parse_theory_str s = FolParse.PR_ok t
   | Error => FolParse.parse_theory_str s = FolParse.PR_err
   | Panic => FolParse.parse_theory_str s = FolParse.PR_panic
   | OutOfFuel => FolParse.parse_theory_str s = FolParse.PR_oof
   end.
 Proof.
-  intros Hp. cbn [run_cli]. unfold run_simplify, theory_from_file.
+  intros Hp. cbn [run_cli_fuel]. unfold run_simplify_fuel, theory_from_file.
   destruct (FolParse.parse_theory_str s) as [t| | |] eqn:Et; cbn [of_presult bind]; auto.
-  assert (Ht : exists t', simplify_theory portfolio strategy t = Got t').
+  assert (Ht : exists t', simplify_theory_fuel fuel portfolio strategy t = Got t').
   { apply simplify_theory_total. destruct portfolio; [congruence| |]; intros F.
     - apply simplify_formula_ht_total.
     - apply simplify_formula_int_total. }
   destruct Ht as [t' ->]. cbn. eauto.
+Qed.
+
+(* ------------------------------------------------------------------ simplify: the fuel (audit A8) *)
+(* C18_term_cls composed into the glue: the fuel of the classic loop is a parameter of
+   [run_cli_fuel]; a Stdout / Error / Panic answer is stable under more fuel, and from the bound
+   [theory_fuel t] of the parsed theory on, OutOfFuel cannot come from the simplifier. *)
+Lemma cli_portfolio_classic_opt_refines :
+  Forall2 StrategyClsOk.refines portfolio_classic_opt ClsTerm.portfolio_classic.
+Proof. exact portfolio_classic_opt_refines. Qed.
+
+Lemma simplify_formula_fuel_mono n portfolio strategy F r :
+  simplify_formula_fuel n portfolio strategy F = r -> r <> Stop OutOfFuel ->
+  forall m, n <= m -> simplify_formula_fuel m portfolio strategy F = r.
+Proof.
+  unfold simplify_formula_fuel. destruct portfolio; [|auto|auto].
+  intros E Hr m Hle.
+  destruct (StrategyCls.run_strategy_opt n portfolio_classic_opt (strategy_cls strategy) F) as [| |G] eqn:En.
+  - rewrite (FuelMono.run_strategy_opt_more _ _ _ _ _ En ltac:(discriminate) m Hle). exact E.
+  - congruence.
+  - rewrite (FuelMono.run_strategy_opt_more _ _ _ _ _ En ltac:(discriminate) m Hle). exact E.
+Qed.
+
+Lemma simplify_formula_fuel_terminates m portfolio strategy F :
+  ClsTerm.classic_fuel F <= m -> simplify_formula_fuel m portfolio strategy F <> Stop OutOfFuel.
+Proof.
+  intros Hle. destruct portfolio.
+  - unfold simplify_formula_fuel.
+    pose proof (FuelMono.run_classic_opt_never_nonterminating _ cli_portfolio_classic_opt_refines
+                  (strategy_cls strategy) F m Hle) as H.
+    destruct (StrategyCls.run_strategy_opt m portfolio_classic_opt (strategy_cls strategy) F); congruence.
+  - destruct (simplify_formula_ht_total m strategy F) as [G ->]. discriminate.
+  - destruct (simplify_formula_int_total m strategy F) as [G ->]. discriminate.
+Qed.
+
+Lemma simplify_theory_fuel_mono n portfolio strategy t r :
+  simplify_theory_fuel n portfolio strategy t = r -> r <> Stop OutOfFuel ->
+  forall m, n <= m -> simplify_theory_fuel m portfolio strategy t = r.
+Proof.
+  intros E Hr m Hle. revert r E Hr. induction t as [|F t IH]; cbn [simplify_theory_fuel]; intros r; [auto|].
+  destruct (simplify_formula_fuel n portfolio strategy F) as [G|r0] eqn:EF.
+  - rewrite (simplify_formula_fuel_mono n _ _ F _ EF ltac:(discriminate) m Hle).
+    destruct (simplify_theory_fuel n portfolio strategy t) as [Gs|r1] eqn:ET.
+    + rewrite (IH _ eq_refl ltac:(discriminate)). auto.
+    + intros <- Hr. rewrite (IH _ eq_refl ltac:(congruence)). reflexivity.
+  - intros <- Hr. rewrite (simplify_formula_fuel_mono n _ _ F _ EF ltac:(congruence) m Hle). reflexivity.
+Qed.
+
+Lemma simplify_theory_fuel_terminates m portfolio strategy t :
+  FuelMono.theory_fuel t <= m -> simplify_theory_fuel m portfolio strategy t <> Stop OutOfFuel.
+Proof.
+  induction t as [|F t IH]; cbn [simplify_theory_fuel FuelMono.theory_fuel]; [discriminate|]. intros Hle.
+  pose proof (simplify_formula_fuel_terminates m portfolio strategy F ltac:(lia)) as HF.
+  destruct (simplify_formula_fuel m portfolio strategy F) as [G|r0]; [|congruence].
+  specialize (IH ltac:(lia)).
+  destruct (simplify_theory_fuel m portfolio strategy t) as [Gs|r1]; [discriminate|congruence].
+Qed.
+
+Lemma bind_stop_oof {A} (x : step A) k : (forall a, x = Got a -> k a <> OutOfFuel) -> x <> Stop OutOfFuel ->
+  bind x k <> OutOfFuel.
+Proof. destruct x as [a|r]; cbn [bind]; [intros H _; apply H; reflexivity|intros _ H E; apply H; congruence]. Qed.
+
+Theorem run_cli_fuel_mono n c s r :
+  run_cli_fuel n c s = r -> r <> OutOfFuel -> forall m, n <= m -> run_cli_fuel m c s = r.
+Proof.
+  destruct c as [pr|as_|portfolio strategy|with_]; cbn [run_cli_fuel]; [auto|auto| |auto].
+  unfold run_simplify_fuel. intros E Hr m Hle.
+  destruct (theory_from_file s) as [t|r0]; cbn [bind] in *; [|exact E].
+  destruct (simplify_theory_fuel n portfolio strategy t) as [t'|r1] eqn:ES; cbn [bind] in E.
+  - rewrite (simplify_theory_fuel_mono n _ _ t _ ES ltac:(discriminate) m Hle). exact E.
+  - rewrite (simplify_theory_fuel_mono n _ _ t (Stop r1) ES ltac:(congruence) m Hle). exact E.
+Qed.
+
+(* the bound: the maximum of ClsTerm.classic_fuel over the formulas of the parsed theory *)
+Definition cli_fuel_bound (s : string) : nat :=
+  match FolParse.parse_theory_str s with FolParse.PR_ok t => FuelMono.theory_fuel t | _ => 0 end.
+
+Lemma print_theory_not_oof t : print_theory t <> OutOfFuel.
+Proof. discriminate. Qed.
+
+Theorem cli_simplify_out_of_fuel_only_parser m portfolio strategy s :
+  cli_fuel_bound s <= m ->
+  run_cli_fuel m (Simplify portfolio strategy) s = OutOfFuel ->
+  FolParse.parse_theory_str s = FolParse.PR_oof.
+Proof.
+  unfold cli_fuel_bound. cbn [run_cli_fuel]. unfold run_simplify_fuel, theory_from_file.
+  destruct (FolParse.parse_theory_str s) as [t| | |]; cbn [of_presult bind]; try discriminate; [|reflexivity].
+  intros Hle E. exfalso.
+  pose proof (simplify_theory_fuel_terminates m portfolio strategy t Hle) as H.
+  destruct (simplify_theory_fuel m portfolio strategy t) as [t'|r]; cbn [bind] in E; [discriminate|congruence].
+Qed.
+
+Theorem cli_eventual_result c s :
+  exists n, forall m, n <= m -> run_cli_fuel m c s = run_cli_fuel n c s.
+Proof.
+  destruct c as [pr|as_|portfolio strategy|with_]; try (exists 0; reflexivity).
+  exists (cli_fuel_bound s). intros m Hle.
+  destruct (run_cli_fuel (cli_fuel_bound s) (Simplify portfolio strategy) s) as [out| | |] eqn:E.
+  - apply (run_cli_fuel_mono _ _ _ _ E); [discriminate|exact Hle].
+  - apply (run_cli_fuel_mono _ _ _ _ E); [discriminate|exact Hle].
+  - apply (run_cli_fuel_mono _ _ _ _ E); [discriminate|exact Hle].
+  - pose proof (cli_simplify_out_of_fuel_only_parser _ _ _ _ (le_n _) E) as Hp.
+    cbn [run_cli_fuel]. unfold run_simplify_fuel, theory_from_file. rewrite Hp. reflexivity.
+Qed.
+
+(* ------------------------------------------------------------------ simplify: no panic (audit A8 b) *)
+(* the classic rewrites panic only outside the parser image; what `simplify` hands them IS the
+   parser's output, so a panic of `anthem simplify` can only be the parser's own (F3a) *)
+Lemma cli_portfolio_classic_opt_safe : Forall2 ParserImage.safe portfolio_classic_opt ClsTerm.portfolio_classic.
+Proof.
+  unfold portfolio_classic_opt, ClsTerm.portfolio_classic.
+  apply Forall2_app; [apply ParserImage.lift_safe; [reflexivity|exact ParserImage.INTUITIONISTIC_pi]|].
+  apply Forall2_app; [apply ParserImage.lift_safe; [reflexivity|constructor]|exact ParserImage.CLASSIC_opt_safe].
+Qed.
+
+Lemma simplify_formula_fuel_no_panic fuel portfolio strategy F :
+  ParserImage.parser_image F -> simplify_formula_fuel fuel portfolio strategy F <> Stop Panic.
+Proof.
+  intros HF. destruct portfolio.
+  - unfold simplify_formula_fuel.
+    pose proof (ParserImage.run_strategy_opt_no_panic fuel _ _ (strategy_cls strategy) F
+                  cli_portfolio_classic_opt_safe HF) as H.
+    destruct (StrategyCls.run_strategy_opt fuel portfolio_classic_opt (strategy_cls strategy) F); congruence.
+  - destruct (simplify_formula_ht_total fuel strategy F) as [G ->]. discriminate.
+  - destruct (simplify_formula_int_total fuel strategy F) as [G ->]. discriminate.
+Qed.
+Lemma simplify_theory_fuel_no_panic fuel portfolio strategy t :
+  (forall F, In F t -> ParserImage.parser_image F) -> simplify_theory_fuel fuel portfolio strategy t <> Stop Panic.
+Proof.
+  induction t as [|F t IH]; cbn [simplify_theory_fuel]; intros H; [discriminate|].
+  pose proof (simplify_formula_fuel_no_panic fuel portfolio strategy F (H F (or_introl eq_refl))) as HF.
+  destruct (simplify_formula_fuel fuel portfolio strategy F) as [G|r0]; [|congruence].
+  specialize (IH (fun x Hx => H x (or_intror Hx))).
+  destruct (simplify_theory_fuel fuel portfolio strategy t) as [Gs|r1]; [discriminate|congruence].
+Qed.
+
+Theorem cli_simplify_panic_only_parser fuel portfolio strategy s :
+  run_cli_fuel fuel (Simplify portfolio strategy) s = Panic ->
+  FolParse.parse_theory_str s = FolParse.PR_panic.
+Proof.
+  cbn [run_cli_fuel]. unfold run_simplify_fuel, theory_from_file.
+  destruct (FolParse.parse_theory_str s) as [t| | |] eqn:Et; cbn [of_presult bind]; try discriminate; [|reflexivity].
+  intros E. exfalso.
+  pose proof (simplify_theory_fuel_no_panic fuel portfolio strategy t
+                (ParserImagePipeline.wf_theory_pi t (FolImage.image_theory_str s t Et))) as H.
+  destruct (simplify_theory_fuel fuel portfolio strategy t) as [t'|r]; cbn [bind] in E; [discriminate|congruence].
+Qed.
+
+(* all three portfolios, every fuel from the bound on: the outcome of `simplify` is decided by the
+   parser alone (the classic-portfolio counterpart of cli_simplify_int_ht_terminates) *)
+Theorem cli_simplify_decided_by_parser m portfolio strategy s : cli_fuel_bound s <= m ->
+  match run_cli_fuel m (Simplify portfolio strategy) s with
+  | Stdout _ => exists t, FolParse.parse_theory_str s = FolParse.PR_ok t
+  | Error => FolParse.parse_theory_str s = FolParse.PR_err
+  | Panic => FolParse.parse_theory_str s = FolParse.PR_panic
+  | OutOfFuel => FolParse.parse_theory_str s = FolParse.PR_oof
+  end.
+Proof.
+  intros Hm. destruct (run_cli_fuel m (Simplify portfolio strategy) s) as [out| | |] eqn:E.
+  - destruct (cli_simplify_sound m portfolio strategy s out E) as [t [_ [Et _]]]. eauto.
+  - revert E. cbn [run_cli_fuel]. unfold run_simplify_fuel, theory_from_file.
+    destruct (FolParse.parse_theory_str s) as [t| | |]; cbn [of_presult bind]; try discriminate; [|reflexivity].
+    intros E. exfalso.
+    assert (Hn : forall t r, simplify_theory_fuel m portfolio strategy t = Stop r -> r = Panic \/ r = OutOfFuel).
+    { clear. induction t as [|F t IH]; cbn [simplify_theory_fuel]; intros r; [discriminate|].
+      destruct (simplify_formula_fuel m portfolio strategy F) as [G|r0] eqn:EF.
+      - destruct (simplify_theory_fuel m portfolio strategy t) as [Gs|r1]; [discriminate|].
+        intros [= <-]. apply IH; reflexivity.
+      - intros [= <-]. unfold simplify_formula_fuel in EF. destruct portfolio.
+        + destruct (StrategyCls.run_strategy_opt _ _ _ F); inversion EF; auto.
+        + destruct (Strategy.run_strategy _ _ _ F); inversion EF; auto.
+        + destruct (Strategy.run_strategy _ _ _ F); inversion EF; auto. }
+    destruct (simplify_theory_fuel m portfolio strategy t) as [t'|r] eqn:ES; cbn [bind] in E; [discriminate|].
+    destruct (Hn t r ES) as [Hr|Hr]; rewrite Hr in E; discriminate E.
+  - exact (cli_simplify_panic_only_parser m portfolio strategy s E).
+  - exact (cli_simplify_out_of_fuel_only_parser m portfolio strategy s Hm E).
 Qed.
 
 (* ------------------------------------------------------------------ parse --as program *)
@@ -193,7 +369,7 @@ Theorem cli_parse_print_roundtrip s out :
     (~ C14.KeywordIdent P ->
        AspParse.parse_program_text out = AspParse.POk P /\ run_cli (Parse Program) out = Stdout out).
 Proof.
-  cbn [run_cli run_parse]. intros E.
+  unfold run_cli; cbn [run_cli_fuel run_parse]. intros E.
   apply program_bind_stdout in E. destruct E as (P & EP & E).
   unfold print_program in E. injection E as <-.
   exists P. split; [exact EP|]. split; [reflexivity|]. intros Hk. split.
@@ -212,7 +388,7 @@ Theorem cli_parse_theory_roundtrip s out :
     (FolClass.known_class_theory t = None ->
      FolParse.parse_theory_str out = FolParse.PR_ok t /\ run_cli (Parse Theory) out = Stdout out).
 Proof.
-  cbn [run_cli run_parse]. intros E.
+  unfold run_cli; cbn [run_cli_fuel run_parse]. intros E.
   apply theory_bind_stdout in E. destruct E as (t & Et & E).
   apply print_theory_inj_stdout in E. subst out.
   exists t. split; [exact Et|]. split; [reflexivity|]. intros Hk.
@@ -228,7 +404,7 @@ Theorem cli_parse_specification_roundtrip s out :
     (FolClass.known_class_spec t = None ->
      FolParse.parse_spec_str out = FolParse.PR_ok t /\ run_cli (Parse Specification) out = Stdout out).
 Proof.
-  cbn [run_cli run_parse]. intros E. unfold specification_from_file in E.
+  unfold run_cli; cbn [run_cli_fuel run_parse]. intros E. unfold specification_from_file in E.
   apply presult_bind_stdout in E. destruct E as (t & Et & E).
   unfold print_specification in E. injection E as <-.
   exists t. split; [exact Et|]. split; [reflexivity|]. intros Hk.
@@ -244,7 +420,7 @@ Theorem cli_parse_user_guide_roundtrip s out :
     (FolClass.known_class_ug t = None ->
      FolParse.parse_ug_str out = FolParse.PR_ok t /\ run_cli (Parse UserGuide) out = Stdout out).
 Proof.
-  cbn [run_cli run_parse]. intros E. unfold user_guide_from_file in E.
+  unfold run_cli; cbn [run_cli_fuel run_parse]. intros E. unfold user_guide_from_file in E.
   apply presult_bind_stdout in E. destruct E as (t & Et & E).
   unfold print_user_guide in E. injection E as <-.
   exists t. split; [exact Et|]. split; [reflexivity|]. intros Hk.
@@ -260,7 +436,7 @@ Theorem cli_analyze_tight_exact s out :
     out = bool_str b ++ nl /\
     (b = true <-> ~ exists p, clos_trans pred (TightnessOk.pos_dep P) p p).
 Proof.
-  cbn [run_cli run_analyze]. intros E.
+  unfold run_cli; cbn [run_cli_fuel run_analyze]. intros E.
   apply program_bind_stdout in E. destruct E as (P & EP & E).
   unfold println_bool in E. injection E as <-.
   exists P, (Tightness.is_tight P). split; [exact EP|]. split; [reflexivity|]. apply C11tight.C11_tight.
@@ -273,7 +449,7 @@ Theorem cli_analyze_regular_exact s out :
     out = bool_str b ++ nl /\
     (b = true <-> Forall RegularOk.regular_rule P).
 Proof.
-  cbn [run_cli run_analyze]. intros E.
+  unfold run_cli; cbn [run_cli_fuel run_analyze]. intros E.
   apply program_bind_stdout in E. destruct E as (P & EP & E).
   unfold of_nresult_bool in E. destruct (Regularity.is_regular P) as [b| |] eqn:Eb; try discriminate.
   unfold println_bool in E. injection E as <-.
@@ -287,7 +463,7 @@ Qed.
 Theorem cli_analyze_panic_only_from_parser property s :
   run_cli (Analyze property) s = Panic -> AspParse.parse_program_text s = AspParse.PPanic.
 Proof.
-  destruct property; cbn [run_cli run_analyze]; unfold program_from_file;
+  destruct property; unfold run_cli; cbn [run_cli_fuel run_analyze]; unfold program_from_file;
     destruct (AspParse.parse_program_text s) as [P| |]; cbn [bind]; unfold println_bool; auto; try discriminate.
   unfold of_nresult_bool. pose proof (C11reg.C11_reg_total P) as Hn.
   destruct (Regularity.is_regular P) eqn:Er; unfold println_bool; try discriminate.
